@@ -49,6 +49,11 @@ def explore(ctx):
             for kind in ("tls", "plain"):
                 for how in ("timeout", "cancel"):
                     lines.append("slowdial w%d kind=%s how=%s" % (k, kind, how)); k += 1
+        # a command that meets io.EOF many times in a row, every reconnect succeeding: it is executed again each time
+        for n_eof in (4, 5, 7, 12):
+            for kind in ("eofdisc", "eof"):
+                seq = ",".join([kind] * n_eof + ["ok"])
+                lines.append("conn q%d mode=seq lazy=1 dials=%s conns=- script=settle;cmd/1/%s/0/nowait;settle;awaitall;settle" % (k, ",".join(["ok"] * (n_eof + 2)), seq)); k += 1
         for fatal_at in ("dials=fatal conns=-", "dials=ok conns=fatal", "dials=fail,fatal conns=-", "dials=ok,ok conns=fail,fatal"):
             lines.append("conn f%d mode=seq lazy=1 %s script=cmd/1/ok/0/nowait;settle;cmd/2/ok/0/nowait;settle;awaitall;settle" % (k, fatal_at)); k += 1
         for nwait in (1, 2, 3):
